@@ -754,6 +754,15 @@ func (e *Exec) instrAlloc(fr *Frame, st *State, x *ssa.Alloc) {
 		m := e.elemHeap(at.Elem())
 		e.hset(st, m, sto(e.hget(st, m), arr, e.sc.zeroOf(t)))
 		fr.regs[x] = Val{T: arr, Typ: x.Type(), NonNil: true, Loc: &Loc{Kind: LArray, Base: arr, Typ: t}}
+	case x.Heap && !isStructT(t) && sharedCell(x):
+		// a captured local that never escapes: one named cell shared with the closures that capture it
+		key, _ := sharedCellKey(x)
+		if e.cellTypes == nil {
+			e.cellTypes = map[string]types.Type{}
+		}
+		e.cellTypes[key] = t
+		st.cells[key] = e.sc.zeroOf(t)
+		fr.regs[x] = Val{T: "0", Typ: x.Type(), NonNil: true, Loc: &Loc{Kind: LCell, Cell: key, Typ: t}}
 	case x.Heap || isStructT(t):
 		// (library structs held by value get an object identity too, so that their fields can be addressed)
 		ref := e.alloc(st)
